@@ -506,6 +506,19 @@ class WireObserver:
         ctx.setup(cipher_suite=suite, secret=slot.secret, version=version)
         return ctx
 
+    def context_for(
+        self, sender: str, epoch: str, key_phase: Optional[int] = None
+    ) -> Optional[CryptoContext]:
+        """Like :meth:`send_context` but, for 1-RTT, selects the key generation
+        whose phase bit equals ``key_phase`` (current or previous)."""
+        ctx = self.send_context(sender, epoch)
+        if ctx is None or epoch != "1rtt" or key_phase is None or ctx.key_phase == key_phase:
+            return ctx
+        slots = self._slots.get((sender, epoch)) or []
+        if slots and slots[-1].previous is not None and slots[-1].previous.key_phase == key_phase:
+            return slots[-1].previous
+        return next_key_phase(ctx)
+
     # -- feeding ---------------------------------------------------------------
 
     def tap(self, rec: Any) -> None:
